@@ -267,6 +267,10 @@ fn provenance(history: &[(String, Vec<u8>)], stale: &[u8], own_path: &str) -> St
     "unknown".into()
 }
 
+fn payload_history(sess: &Session, p: &str) -> Vec<u8> {
+    sess.model.get_path(p).map(|n| n.data.clone()).unwrap_or_default()
+}
+
 fn c08_case(ctx: &Ctx, rep: &mut Report, rng: &mut Rng, version: Version, bufsize: Option<usize>, done: &mut Vec<Step>) -> Result<(), Fail> {
     let mut sess = Session::create(version, bufsize).map_err(|e| ("create | ok | err".to_string(), format!("{e}")))?;
     let names = ["/a", "/b", "/c", "/d", "/e"];
@@ -277,6 +281,42 @@ fn c08_case(ctx: &Ctx, rep: &mut Report, rng: &mut Rng, version: Version, bufsiz
         let p = *rng.pick(&names);
         let exists = sess.model.get_path(p).is_some();
         let w = rng.below(100);
+        if exists && w >= 90 {
+            // one handle kept open across write / shrink / write-at-the-new-end / grow: the
+            // handle's own buffer has seen the longer data
+            let long = *rng.pick(&[300usize, 700, 1500, 3000, 6000]);
+            run_step(&mut sess, Step::HOpen { slot: 0, path: p.into(), how: OpenHow::Create }, done, rep)?;
+            run_step(&mut sess, Step::HWriteAll { slot: 0, len: long }, done, rep)?;
+            if rng.chance(1, 2) {
+                run_step(&mut sess, Step::HFlush { slot: 0 }, done, rep)?;
+            }
+            if rng.chance(1, 2) {
+                run_step(&mut sess, Step::HSeek { slot: 0, from: SeekFrom::Start(0) }, done, rep)?;
+                run_step(&mut sess, Step::HReadToEnd { slot: 0 }, done, rep)?;
+            }
+            let short = rng.below(long as u64 / 2 + 1);
+            run_step(&mut sess, Step::HSetLen { slot: 0, n: short }, done, rep)?;
+            run_step(&mut sess, Step::HSeek { slot: 0, from: SeekFrom::End(0) }, done, rep)?;
+            run_step(&mut sess, Step::HWriteAll { slot: 0, len: 1 + rng.below(40) as usize }, done, rep)?;
+            let old = sess.model.get_path(p).unwrap().data.len() as u64;
+            let new = old + 1 + rng.below(long as u64);
+            former.push((p.to_string(), payload_history(&sess, p)));
+            run_step(&mut sess, Step::HSetLen { slot: 0, n: new }, done, rep)?;
+            // the gained bytes through the same handle (model-checked read), then reopened
+            run_step(&mut sess, Step::HSeek { slot: 0, from: SeekFrom::Start(old) }, done, rep).map_err(|(s, d)| (format!("grow | long-lived handle | {s}"), d))?;
+            run_step(&mut sess, Step::HReadExact { slot: 0, n: (new - old) as usize }, done, rep).map_err(|(s, d)| (format!("grow | long-lived handle | {s}"), d))?;
+            run_step(&mut sess, Step::HFlush { slot: 0 }, done, rep)?;
+            let bytes = sess.shared.bytes();
+            let d = engine::dump_bytes(&bytes, Mode::Strict).map_err(|w| ("grow | reopen | failed".to_string(), w))?;
+            let got = d.iter().find(|(v, _)| v.path == p).map(|(_, b)| b.clone()).unwrap_or_default();
+            if got.len() as u64 != new || got[old as usize..].iter().any(|&b| b != 0) {
+                return Err(("grow | long-lived handle | non-zero gained bytes after reopen".to_string(), format!("set_len({old} -> {new}) on {p} through a handle that had buffered longer data")));
+            }
+            rep.count("grows_checked");
+            rep.count("grows_through_long_lived_handle");
+            run_step(&mut sess, Step::HClose { slot: 0 }, done, rep)?;
+            continue;
+        }
         if !exists || w < 15 {
             // (re)create with content
             if exists {
